@@ -16,6 +16,8 @@ pub fn run(args: &[String]) {
     let mut rng = Rng::from_env(0xC15);
     let mut shapes: Vec<(u64, u64)> = Vec::new();
     for b in 1..=maxb { for s in 1..=4 { shapes.push((b, s)); } }
+    // wide dilutions: the diluted values 2^(spacing*i) leave the machine word long before they leave the field
+    shapes.extend([(2, 40), (3, 32), (3, 40), (4, 21), (5, 16), (2, 64), (1, 64), (2, 70), (8, 16), (3, 100)]);
     if full16 { shapes.push((16, 4)); }
     for (k, (b, s)) in shapes.iter().cycle().take((nd as usize).max(shapes.len())).enumerate() {
         let (z, alpha) = match k % 5 { 0 => (Felt::ZERO, rng.felt()), 1 => (rng.felt(), Felt::ZERO), 2 => (Felt::ONE, Felt::ZERO - Felt::ONE), _ => (rng.felt(), rng.felt()) };
